@@ -15,6 +15,7 @@ import (
 
 	"github.com/blevesearch/bleve/v2"
 	"github.com/blevesearch/bleve/v2/index/scorch"
+	index "github.com/blevesearch/bleve_index_api"
 	bolt "go.etcd.io/bbolt"
 )
 
@@ -181,7 +182,9 @@ func c03Child() {
 				fmt.Sscanf(id, "w%d-", &w)
 			}
 			if w >= 0 && w < len(inflight) {
-				logEv(fmt.Sprintf("intro %d %d", atomic.LoadInt64(&inflight[w]), iv.PostEpoch))
+				if key := atomic.LoadInt64(&inflight[w]); key >= 0 {
+					logEv(fmt.Sprintf("intro %d %d", key, iv.PostEpoch))
+				}
 			}
 		}
 	})
@@ -214,6 +217,7 @@ func c03Child() {
 			for n := n0 + 1; n <= n0+maxBatch; n++ {
 				b := idx.NewBatch()
 				c04FillBatch(b, w, n, K)
+				_ = b.Index(fmt.Sprintf("w%d-aux", w), map[string]interface{}{"seq": float64(n)})
 				key := w*1000000 + n
 				if unsafeMode {
 					b.SetPersistedCallback(func(err error) {
@@ -229,6 +233,26 @@ func c03Child() {
 				}
 				if !unsafeMode {
 					logEv(fmt.Sprintf("ack %d", key))
+				}
+				if rng.Chance(45) {
+					// a batch that holds nothing but a deletion: no new segment, no internal value
+					atomic.StoreInt64(&inflight[w], -1) // not a numbered batch: its introduction is not logged
+					db := idx.NewBatch()
+					db.Delete(fmt.Sprintf("w%d-aux", w))
+					if unsafeMode {
+						db.SetPersistedCallback(func(err error) {
+							if err == nil {
+								logEv(fmt.Sprintf("# ackdel %d", key))
+							}
+						})
+					}
+					if err := idx.Batch(db); err != nil {
+						logEv("# batch-error " + err.Error())
+						os.Exit(4)
+					}
+					if !unsafeMode {
+						logEv(fmt.Sprintf("# ackdel %d", key))
+					}
 				}
 				if rng.Chance(30) {
 					time.Sleep(time.Duration(rng.Intn(4)) * time.Millisecond)
@@ -322,6 +346,7 @@ func runC03(t *Trace, r *Rng, tier string, _ []string) {
 		}
 		t.Emit(cat+"/reset", false, "reset "+strings.Join(ks, " "), "ok")
 		acked := make([]int, W)
+		ackedDel := make([]int, W)
 		evOff := 0
 		// the index is created before any kill: dying inside bleve.New is not what the property is about
 		idx0, err := bleve.NewUsing(dir, bleve.NewIndexMapping(), scorch.Name, scorch.Name, c03Config(ci, mode == "unsafe"))
@@ -380,6 +405,13 @@ func runC03(t *Trace, r *Rng, tier string, _ []string) {
 						t.Add("reached-in-full-runs:"+kv[:i], n)
 					}
 				}
+				if strings.HasPrefix(l, "# ackdel ") {
+					var key int
+					fmt.Sscanf(l, "# ackdel %d", &key)
+					if w, n := key/1000000, key%1000000; w < W && n > ackedDel[w] {
+						ackedDel[w] = n
+					}
+				}
 				if strings.HasPrefix(l, "#") {
 					if strings.HasPrefix(l, "# closed") && how != "clean-close" {
 						reached = "ran-to-close"
@@ -417,15 +449,41 @@ func runC03(t *Trace, r *Rng, tier string, _ []string) {
 			rd, err := adv.Reader()
 			must(err)
 			docs, ints, count, err := c04Observe(rd, W, K)
+			// the auxiliary documents, read through the same reader
+			aux := make([]int, W)
+			for w := 0; w < W && err == nil; w++ {
+				d, e := rd.Document(fmt.Sprintf("w%d-aux", w))
+				if e != nil {
+					err = e
+					break
+				}
+				if d != nil {
+					d.VisitFields(func(f index.Field) {
+						if nf, ok := f.(index.NumericField); ok && f.Name() == "seq" {
+							v, _ := nf.Number()
+							aux[w] = int(v)
+						}
+					})
+					count-- // the documents of the history monitor are counted without the auxiliary ones
+				}
+			}
 			rd.Close()
 			if err != nil {
 				t.Emit(cat+"/reopen", true, "echo ok", "read-failed:"+oneLine(err.Error()))
 			} else {
 				t.Emit(cat+"/recovered", true, c04Line(0, acked, docs, ints, count), "ok")
+				j := func(xs []int) string {
+					ps := make([]string, len(xs))
+					for i, x := range xs {
+						ps[i] = fmt.Sprint(x)
+					}
+					return strings.Join(ps, ",")
+				}
+				t.Emit(cat+"/recovered-delete-only", true, fmt.Sprintf("aux %s %s %s", j(ints), j(aux), j(ackedDel)), "ok")
 			}
 			// a search sees the same
 			req := bleve.NewSearchRequestOptions(bleve.NewMatchAllQuery(), 100, 0, false)
-			if res, err := idx.Search(req); err != nil || res.Total != count {
+			if res, err := idx.Search(req); err != nil || res.Total != count+uint64(c03CountNonZero(aux)) {
 				t.Emit(cat+"/reopen-search", true, "echo ok", oneLine(fmt.Sprintf("search total %v err %v vs count %d", res, err, count)))
 			} else {
 				t.Emit(cat+"/reopen-search", true, "echo ok", "ok")
@@ -445,4 +503,14 @@ func oneLine(s string) string {
 		s = s[:400]
 	}
 	return strings.ReplaceAll(s, "\r", "")
+}
+
+func c03CountNonZero(xs []int) int {
+	n := 0
+	for _, x := range xs {
+		if x != 0 {
+			n++
+		}
+	}
+	return n
 }
